@@ -46,6 +46,10 @@ CHECKS = {
     "C16": dict(cat="proof", tech="Lean 4: model of both iterators compared order-exactly with the code; specification predicates with soundness theorems judged on every real enumeration",
                 text="Scfg/Model/Iter.lean models SCFG.__iter__ and region_view_iterator; for every (sub)graph at every depth, before and after every stage, the real enumerations are compared with the model and judged by iterSpecOK / viewSpecOK, whose meaning Scfg.C16.iterSpecOK_sound / viewSpecOK_sound prove.", ref="§7 C16",
                 note="Trusted: Lean kernel + standard axioms; exporter. The quantifier over graphs is by enumeration (as C01); an a-priori completeness theorem of the BFS under wf is not yet proved."),
+    "C09": dict(cat="proof", tech="Lean 4: theorems about the block-cutting model for all streams and tables (contiguous, non-overlapping, gap-free); tables regenerated from source; model and interpreter-metadata specification compared with the real front end on a stdlib corpus under 3.12 and 3.11",
+                text="Scfg.C09.ranges_chain / ranges_cover / fromBytecode_nodup / blockRanges_strict prove, for every instruction stream and every opcode table, that the model of build_basicblocks cuts the stream into contiguous, non-overlapping, gap-free ranges. "
+                     "The opcode tables are regenerated from /repo on every run and passed to the model; real FlowInfo/build_basicblocks output is compared with the model exactly and with Lean specBlocks (leaders and successors from the interpreter's own opcode metadata) on ~1 900 functions per interpreter.", ref="§7 C09",
+                note="Trusted: Lean kernel + standard axioms; dis (is_jump_target, argval); the opcode truth-class rule; successor exactness and totality are per-function on the corpus, not an a-priori theorem."),
 }
 
 NOT_YET = {}
